@@ -27,6 +27,8 @@ type Report struct {
 	Outcomes    []Outcome
 	Aborted     map[string]string // function -> reason; counts as a failed (undecided) claim
 	Bounded     []Bounded
+	BoundedObls map[string]bool // names of obligations that belong to bounded instances
+	GeneralObls map[string]bool // names of obligations generated (also) by jobs over all inputs
 	Assumptions []string
 	Trusted     []string
 	Inlined     []string
@@ -38,7 +40,7 @@ type Report struct {
 }
 
 func NewReport(prop, tier string, seed int) *Report {
-	return &Report{Prop: prop, Tier: tier, Seed: seed, Aborted: map[string]string{}, Start: time.Now(), Extra: map[string]interface{}{}}
+	return &Report{Prop: prop, Tier: tier, Seed: seed, Aborted: map[string]string{}, Start: time.Now(), Extra: map[string]interface{}{}, BoundedObls: map[string]bool{}, GeneralObls: map[string]bool{}}
 }
 
 type KnownFinding struct {
@@ -211,26 +213,34 @@ func (r *Report) Finish(w *World) int {
 	for _, o := range failed {
 		undec = append(undec, o.Name+" ("+o.Status+")")
 	}
+	nBounded := 0
+	for _, o := range r.Outcomes {
+		if !o.Cover && r.BoundedObls[o.Name] && !r.GeneralObls[o.Name] {
+			nBounded++
+		}
+	}
 	cov := map[string]interface{}{
-		"obligations":              total,
-		"discharged":               discharged,
-		"checker_cmd":              fmt.Sprintf("/verif/bin/govc check %s --tier %s", r.Prop, r.Tier),
-		"trusted_base":             r.Trusted,
-		"functions_under_contract": len(r.Functions),
-		"functions":                r.Functions,
-		"by_backend":               byBackend,
-		"by_kind":                  byKind,
-		"covers":                   map[string]int{"total": covers, "satisfiable": coversOK},
-		"solver_time_s":            float64(atomic.LoadInt64(&smt.SolverTime)) / 1e9,
-		"solver_calls":             atomic.LoadInt64(&smt.SolverCalls),
-		"bounded":                  r.Bounded,
-		"undecided_or_failed":      undec,
-		"known_findings_hit":       knownHit,
-		"inlined_callees":          r.Inlined,
-		"samples":                  samples,
-		"explanation":              r.Explain,
-		"load_s":                   w.LoadSecs,
-		"contract_files":           w.Hooks,
+		"obligations":                      total,
+		"discharged":                       discharged,
+		"checker_cmd":                      fmt.Sprintf("/verif/bin/govc check %s --tier %s", r.Prop, r.Tier),
+		"trusted_base":                     r.Trusted,
+		"functions_under_contract":         len(r.Functions),
+		"functions":                        r.Functions,
+		"by_backend":                       byBackend,
+		"by_kind":                          byKind,
+		"covers":                           map[string]int{"total": covers, "satisfiable": coversOK},
+		"solver_time_s":                    float64(atomic.LoadInt64(&smt.SolverTime)) / 1e9,
+		"solver_calls":                     atomic.LoadInt64(&smt.SolverCalls),
+		"bounded":                          r.Bounded,
+		"obligations_of_bounded_instances": nBounded,
+		"obligations_for_all_inputs":       total - nBounded,
+		"undecided_or_failed":              undec,
+		"known_findings_hit":               knownHit,
+		"inlined_callees":                  r.Inlined,
+		"samples":                          samples,
+		"explanation":                      r.Explain,
+		"load_s":                           w.LoadSecs,
+		"contract_files":                   w.Hooks,
 	}
 	for k, v := range r.Extra {
 		cov[k] = v
